@@ -18,6 +18,7 @@ import vcommon as V
 sys.path.insert(0, os.path.join(V.VERIF, "translator"))
 sys.path.insert(0, os.path.join(V.VERIF, "gen"))
 import c11_named as TN  # noqa
+import c11_cats as TC  # noqa
 
 SPECIAL_OUT = set(map(ord, "\\|.^-?*+{}()[]"))       # must be escaped outside a class (we escape '-' and '^' too)
 SPECIAL_IN = set(map(ord, "\\[]-^"))                  # escaped inside a class
@@ -53,6 +54,8 @@ def print_cls(c):
             out += esc_in(it[1])
         elif it[0] == 'r':
             out += esc_in(it[1]) + [45] + esc_in(it[2])
+        elif it[0] == 'K':
+            out += [92, 80 if it[3] else 112, 123] + [ord(c) for c in it[2]] + [125]
         else:
             out += [92, ord(it[1])]
     if sub is not None:
@@ -61,7 +64,7 @@ def print_cls(c):
 
 
 def is_atom(n):
-    return n[0] in ('chr', 'dot', 'named', 'cls', 'grp')
+    return n[0] in ('chr', 'dot', 'named', 'pcat', 'cls', 'grp')
 
 
 def print_re(n):
@@ -72,6 +75,8 @@ def print_re(n):
         return [46]
     if k == 'named':
         return [92, ord(n[1])]
+    if k == 'pcat':
+        return [92, 80 if n[3] else 112, 123] + [ord(c) for c in n[2]] + [125]
     if k == 'cls':
         return print_cls(n[1])
     if k == 'eps':
@@ -108,7 +113,8 @@ def ast_cls(c):
     parts = []
     for it in items:
         parts.append("r%06X%06X" % (it[1], it[1]) if it[0] == 'c' else
-                     "r%06X%06X" % (it[1], it[2]) if it[0] == 'r' else "k" + it[1])
+                     "r%06X%06X" % (it[1], it[2]) if it[0] == 'r' else
+                     (("nK%02d" if it[3] else "K%02d") % it[1]) if it[0] == 'K' else "k" + it[1])
     base = "e"
     for p in reversed(parts):
         base = p if base == "e" else "u" + p + base
@@ -127,6 +133,8 @@ def ast_re(n):
         return "Snur00000A00000Ar00000D00000D"
     if k == 'named':
         return "Sk" + n[1]
+    if k == 'pcat':
+        return ("SnK%02d" if n[3] else "SK%02d") % n[1]
     if k == 'cls':
         return "S" + ast_cls(n[1])
     if k == 'eps':
@@ -390,6 +398,68 @@ def gen_requests(ctx):
     return reqs
 
 
+def category_requests(ctx):
+    """the general-category escapes: every \\p{X} / \\P{X} (37 names), alone and inside classes, and \\w \\W \\d \\D \\i \\c,
+    against a stratified sample of BMP characters: one representative of every (category, 256-character page) pair of
+    the library's category map, both ends of the private-use area, noncharacters and unassigned code points."""
+    d = ctx.catdata
+    rng = ctx.rng
+    seen, sample = set(), []
+    for a, b, k in d["rle"]:
+        for c in sorted({a, b, (a + b) // 2}):
+            key = (k, c >> 8)
+            if key in seen or 0xD800 <= c <= 0xDFFF or c == 0:
+                continue
+            seen.add(key)
+            sample.append(c)
+    sample += [0xE000, 0xE001, 0xF8FF, 0xFDD0, 0xFFFE, 0xFFFF, 0x0378, 0x0085, 0x2028, 0x3000]
+    if ctx.tier == "thorough":
+        sample += [c for c in range(1, 0x10000, 7) if not 0xD800 <= c <= 0xDFFF]
+    sample = sorted(set(sample))
+    strs = [[c] for c in sample]
+    reqs = []
+
+    def add(kind, e):
+        reqs.append({"kind": kind, "pat": print_re(e), "strs": strs, "ast": ast_re(e), "mode": "re", "expr": e})
+    for idx, name in enumerate(d["names"]):
+        for neg in (False, True):
+            add("cat-atom", ('pcat', idx, name, neg))
+            x = rng.random()
+            if x < 0.35:
+                add("cat-class", ('cls', (rng.random() < 0.5, [('K', idx, name, neg)], None)))
+            elif x < 0.5:
+                other = rng.randrange(len(d["names"]))
+                add("cat-class", ('cls', (False, [('K', idx, name, neg), ('c', 0x61)],
+                                          (False, [('K', other, d["names"][other], False)], None))))
+    for k in "wWdDiIcCsS":
+        add("named-sweep", ('named', k))
+        add("named-sweep", ('cls', (False, [('k', k)], None)))
+    add("named-sweep", ('cls', (True, [('k', 'w')], None)))
+    ctx.coverage["category_sample"] = {"characters": len(sample), "pairs_category_page": len(seen)}
+    return reqs, sample
+
+
+SUPP_SAMPLE = [0x10000, 0x1003F, 0x10140, 0x1D11E, 0x1D7CE, 0x1F600, 0x20000, 0x2A6DF, 0xE0001, 0xE0100, 0xF0000, 0x10FFFD,
+               0x10FFFF, 0x1FFFE, 0x10900, 0x1E900, 0x16B50]
+
+
+def supplementary_requests(ctx):
+    """the same escapes on supplementary characters; reference = python's unicodedata (class of F35)"""
+    import unicodedata
+    d = ctx.catdata
+    out = []
+    strs = [[c] for c in SUPP_SAMPLE]
+    cats = [unicodedata.category(chr(c)) for c in SUPP_SAMPLE]
+    for idx, name in enumerate(d["names"]):
+        want = "".join("1" if (cat == name if len(name) == 2 else cat[0] == name) else "0" for cat in cats)
+        out.append(("re X %s %s" % (hx(print_re(('pcat', idx, name, False))), strs_field(strs)), want, "\\p{%s}" % name))
+    want_w = "".join("0" if cat[0] in "PZC" else "1" for cat in cats)
+    out.append(("re X %s %s" % (hx([92, 119]), strs_field(strs)), want_w, "\\w"))
+    want_d = "".join("1" if cat == "Nd" else "0" for cat in cats)
+    out.append(("re X %s %s" % (hx([92, 100]), strs_field(strs)), want_d, "\\d"))
+    return out
+
+
 def bad_for_model(pat):
     """pattern features outside the modelled subset: category escapes \\p \\P (the byte after a backslash)"""
     for i in range(len(pat) - 1):
@@ -522,6 +592,9 @@ def run_xp(ctx, xh, xm, found, texts, report, replay_group=None):
             if oracle == "O7-replace-groups":
                 found.setdefault("F31", []).append(("xp", line, detail))
                 continue
+            if oracle == "F37-dotstar":
+                found.setdefault("F37", []).append(("xp", line, detail))
+                continue
             if oracle == "F34-fixed-end":
                 found.setdefault("F34", []).append(("xp", line, detail))
                 continue
@@ -589,6 +662,9 @@ def run_xp(ctx, xh, xm, found, texts, report, replay_group=None):
                     a, b = map(int, y.split("_"))
                     want = "%d_%d" % (X.units(s[:a]), X.units(s[:b]))
                 got = "0" if x[:1] == "0" else x[2:].split(",")[0]
+                if got != want and X.dotstar_eol(g, s):
+                    found.setdefault("F37", []).append(("xp", line, "subject #%d: window %s, leftmost window %s" % (k, got, want)))
+                    break
                 if got != want:
                     report("xp-O9-model", {"request": line, "subject_index": k, "impl": x, "model": want,
                                            "xp_group": {k2: g[k2] for k2 in ("kind", "pat", "opts", "subj", "deco", "plain", "ngroups", "fc_lost")},
@@ -615,6 +691,7 @@ def run(ctx):
     # 2. translate: named sets from the built library
     try:
         TN.generate(xh)
+        ctx.catdata = TC.generate(xh)
     except Exception as e:
         ctx.note("translator failed: %r" % (e,))
         ctx.violation("translator", {"what": "cannot read the multi-character escape sets back from the library",
@@ -648,16 +725,22 @@ def run(ctx):
                      "strs": None}]
     else:
         reqs = gen_requests(ctx)
+        creqs, csample = category_requests(ctx)
+        for r in creqs:
+            r["req"] = "re X %s %s" % (hx(r["pat"]), strs_field(r["strs"]))
+        reqs += creqs
         rngs = gen_ranges(ctx)
     lines = [r["req"] for r in reqs] + [x[1] for x in rngs]
     # which repairs does the tree under test carry?  (fixes/C11-*.patch; decided by the literal witnesses, so that the
     # model used for the correspondence is the model of *this* tree: faithful switches off, repaired switches on)
     probe = ["rng add 000001000005000003000009 -",
              "re X %s %s" % (hx(print_re(WITNESS[3][1])), hx([0x62, 0x62])),
-             "re X %s %s" % (hx([46]), hx([0x2028]))]
+             "re X %s %s" % (hx([46]), hx([0x2028])),
+             "re X %s ." % hx([92, 49])]
     _, pw, _ = run_bin(xh, probe, 60)
+    f30_fixed = len(pw) == 4 and pw[3] == "parse-error"       # back-reference rejected with ParseException (F30 repaired)
     swbits = "".join(["1" if pw[0].endswith("000009") else "0", "1" if pw[1] == "ok 1" else "0",
-                      "1" if pw[2] == "ok 1" else "0"]) if len(pw) == 3 else "000"
+                      "1" if pw[2] == "ok 1" else "0"]) if len(pw) == 4 else "000"
     ctx.coverage["repairs_present"] = {"F26_addRange": swbits[0], "F27_overlap": swbits[1], "F29_dot": swbits[2]}
 
     def model_line(l):
@@ -681,6 +764,8 @@ def run(ctx):
                                         "request": lines[k]})
         return
     rc2, model, err2 = run_bin(xm, [model_line(l) for l in lines])
+    if f30_fixed:
+        model = ["parse-error" if m == "exc RuntimeException" else m for m in model]
     if rc2 != 0 or len(model) != len(lines):
         ctx.violation("model-crash", {"what": "model driver crashed", "stderr": err2[-2000:]}, no_input=True)
         return
@@ -786,6 +871,32 @@ def run(ctx):
                     break
                 for fid in who.split("+"):
                     found.setdefault(fid, []).append(i)
+    if not ctx.replay:
+        # the category map itself (ICU through XMLUniCharacter::getType) against an independent Unicode database
+        import unicodedata
+        d = ctx.catdata
+        ndiff, first = 0, None
+        for a_, b_, k_ in d["rle"]:
+            for c_ in range(a_, b_ + 1):
+                if unicodedata.category(chr(c_)) != d["names"][k_]:
+                    ndiff += 1
+                    first = first or (c_, d["names"][k_], unicodedata.category(chr(c_)))
+        ctx.coverage["category_map_vs_python_unicodedata"] = {"unicodedata_version": unicodedata.unidata_version,
+                                                              "bmp_code_units_differing": ndiff, "first": first}
+        if ndiff > 400:
+            report("category-map", {"request": "cats", "what": "XMLUniCharacter::getType disagrees with the Unicode database of the "
+                                    "python runtime on %d BMP code units (more than a version skew explains)" % ndiff,
+                                    "first": first})
+        # supplementary planes: reference = python unicodedata
+        sreq = supplementary_requests(ctx)
+        _, sout, _ = run_bin(xh, [x[0] for x in sreq], 120)
+        nbad = 0
+        for (line, want, what), got in zip(sreq, sout):
+            ctx.count(len(want))
+            if got != "ok " + want:
+                nbad += 1
+                found.setdefault("F35", []).append(("xp", line, "%s on the supplementary sample: %s, Unicode says %s" % (what, got, want)))
+        ctx.coverage["supplementary_category_requests"] = {"requests": len(sreq), "differing": nbad}
     # F30 witness (exception class): back-reference and broken surrogate in schema mode
     if not ctx.replay:
         rcw, w, _ = run_bin(xh, ["re X %s ." % hx([92, 49]), "re X %s ." % hx([0xD800, 0x61])])
@@ -833,6 +944,13 @@ def run(ctx):
         if rcw != 0 or not ow or not ow[0].startswith("ok"):
             found.setdefault("F32", []).append(("xp", "xp b i %s %s" % (hx([ord(c) for c in "[a-[a]]"]), hx([0x61])),
                                                 "harness rc=%s" % rcw))
+    if not ctx.replay:
+        # F36: option i must not remove matches of a positive category escape
+        pl = hx([ord(c) for c in "\\p{L}+"])
+        _, ow, _ = run_bin(xh, ["xp b - %s %s" % (pl, hx([0x41, 0x62])), "xp b i %s %s" % (pl, hx([0x41, 0x62])),
+                               "xp b i %s %s" % (hx([ord(c) for c in "\\p{Lu}"]), hx([0x41]))], 60)
+        if len(ow) == 3 and ow[0] == "ok 1" and (ow[1] != "ok 1" or ow[2] != "ok 1"):
+            found.setdefault("F36", []).append(("xp", "xp b i %s %s" % (pl, hx([0x41, 0x62])), "without i: %s, with i: %s" % (ow[0], ow[1])))
     if not ctx.replay or replay_group:
         run_xp(ctx, xh, xm, found, None, report, replay_group)
     ctx.coverage.pop("_swbits", None)
@@ -856,6 +974,13 @@ def run(ctx):
                "matchStart left on the low surrogate): [b-U+10000]+ misses U+10000",
         "F34": "non-schema matches(s, &Match) on an expression that is a single literal (Boyer-Moore-only path): the end position "
                "is start + length of the pattern TEXT, not of the literal: b{1} on \"b\" reports the window 0..4, \\. reports one too many",
+        "F35": "category escapes and \\w \\d ignore the supplementary planes: every character above U+FFFF is Cn for \\p{Cn} but in "
+               "no one-letter class (not even \\p{C}), \\p{L} rejects U+10000 and U+20000, \\d rejects U+1D7CE, \\w accepts U+10FFFF",
+        "F36": "with option i a category escape matches nothing: UnicodeRangeFactory installs a dummy token (range -2..-1) as the "
+               "case-insensitive twin of every \\p{..} token: \\p{L}+ matches \"Ab\" without i and not with i",
+        "F37": "matches() special-cases a leading '.*' (no option s): it only tries start positions that follow an end-of-line "
+               "character and never one that holds such a character, and it reads the unit at the window end: '.*' on \"\\n\" "
+               "reports the window 1..1 instead of 0..0, and an empty window before a line end does not match at all",
         "F30": "malformed schema-mode expressions rejected with the wrong exception: `\\1` throws RuntimeException, an "
                "unpaired high surrogate throws a bare XMLErrs code instead of ParseException",
     }
